@@ -36,17 +36,19 @@ static const char *const MSG[25] = {
     "Value cannot be converted",
 };
 
-enum Kind { K_BRACKET = 0, K_TEXT_AFTER, K_EMPTY_NAME, K_NO_DELIM };
-static const econf_err KIND_CODE[4] = {ECONF_MISSING_BRACKET, ECONF_TEXT_AFTER_SECTION, ECONF_EMPTY_SECTION_NAME,
-                                       ECONF_MISSING_DELIMITER};
-static const char *const KIND_NAME[4] = {"missing_bracket", "text_after_section", "empty_section_name",
-                                         "missing_delimiter"};
+enum Kind { K_BRACKET = 0, K_TEXT_AFTER, K_EMPTY_NAME, K_NO_DELIM, K_NO_DELIM_LATER };
+static const econf_err KIND_CODE[5] = {ECONF_MISSING_BRACKET, ECONF_TEXT_AFTER_SECTION, ECONF_EMPTY_SECTION_NAME,
+                                       ECONF_MISSING_DELIMITER, ECONF_MISSING_DELIMITER};
+// missing_delimiter: "key text" (a continuation when it directly follows an entry, so not placed there);
+// missing_delimiter_later: "key text = more" - a delimiter occurs, but not behind the key: malformed at any position
+static const char *const KIND_NAME[5] = {"missing_bracket", "text_after_section", "empty_section_name",
+                                         "missing_delimiter", "missing_delimiter_later"};
 
 struct Injected {
   std::string text;  // whole file
   int kind;
   int line;  // 1-based line of the injected malformed line
-  bool after_comment_block = false, after_cont = false, not_first = false;
+  bool after_comment_block = false, after_cont = false, not_first = false, after_entry = false;
 };
 
 // malformed line of the given kind (w.r.t. the file's D and C)
@@ -67,6 +69,12 @@ static std::string malformed(Src &s, const GFile &f, int kind) {
     }
     case K_EMPTY_NAME:
       return ind + "[]" + (s.chance(30) ? gen_blanks(s, 1, 3) : "");
+    case K_NO_DELIM_LATER: {
+      std::string k = gen_token(s, a_key, gen_len(s, 1, false), "[");
+      std::string t = gen_token(s, a_txt, gen_len(s, 1, false));
+      std::string t2 = gen_text(s, a_txt, gen_len(s, 0, false));
+      return ind + k + gen_blanks(s, 1, 3) + t + gen_blanks(s, 0, 2) + f.D[s.below((uint32_t)f.D.size())] + gen_blanks(s, 0, 2) + t2;
+    }
     default: {
       std::string k = gen_token(s, a_key, gen_len(s, 1, false), "[");
       std::string t = gen_text(s, a_txt, gen_len(s, 1, false));
@@ -78,7 +86,7 @@ static std::string malformed(Src &s, const GFile &f, int kind) {
 static Injected inject(Src &s, const GFile &f) {
   Injected r;
   bool nb = f.cls == DC_NONBLANK;
-  r.kind = (int)s.below(nb ? 4 : 3);
+  r.kind = (int)s.below(nb ? 5 : 3);
   // admissible positions (index of the line before which we insert)
   std::vector<size_t> pos;
   for (size_t p = 0; p <= f.lines.size(); p++) {
@@ -98,7 +106,7 @@ static Injected inject(Src &s, const GFile &f) {
   r.line = (int)p + 1;
   // the rest: arbitrary, possibly malformed too ("first such line")
   for (size_t i = p; i < f.lines.size(); i++) {
-    if (s.chance(15)) lines.push_back(malformed(s, f, (int)s.below(nb ? 4 : 3)));
+    if (s.chance(15)) lines.push_back(malformed(s, f, (int)s.below(nb ? 5 : 3)));
     lines.push_back(f.lines[i].text);
   }
   bool final_nl = !s.chance(15);
@@ -108,6 +116,7 @@ static Injected inject(Src &s, const GFile &f) {
   }
   r.not_first = p > 0;
   if (p > 0) {
+    r.after_entry = f.lines[p - 1].kind == L_ENTRY || f.lines[p - 1].kind == L_CONT;
     r.after_cont = f.lines[p - 1].kind == L_CONT;
     r.after_comment_block = f.lines[p - 1].kind == L_COMMENT;
   }
@@ -174,6 +183,7 @@ static void run(Src &s) {
     if (in.not_first) g_case.tag("not_first_line");
     if (in.after_comment_block) g_case.tag("after_comment");
     if (in.after_cont) g_case.tag("after_continuation");
+    if (in.after_entry) g_case.tag("directly_after_entry");
     g_case.nontrivial = in.not_first;
     g_case.shape_hash = fnv_u64((uint64_t)in.kind * 1000 + (uint64_t)in.line, f.skeleton());
     econf_file *kf = (econf_file *)-1;
